@@ -43,6 +43,7 @@ var knownSignatures = map[string]string{
 	"N10":  "N10-comma-group-left-operand-unwrapped",
 	"N11":  "N11-dangling-else-after-empty-else-dropped",
 	"K118": "K118-assignment-to-undefined-or-Infinity",
+	"N12":  "N12-param-default-reads-name-of-body-var",
 }
 
 var reK08 = regexp.MustCompile(`\\u(005[cC]|\{0*5[cC]\})`)
@@ -705,6 +706,40 @@ func scanKnown(src string) []string {
 			for k := j + 2; k < be && k < n; k++ {
 				if isWord(toks[k], "arguments") {
 					found["N02"] = true
+				}
+			}
+		}
+		if hasDefault && isPunct(nx, "{") {
+			// N12 (K133): a default value reads a name that the body declares with var: the parser of the dependency binds
+			// the uses in the body to the outer variable, the renamer renames only the declaration
+			used := map[string]bool{}
+			dd, inDef := 0, false
+			for k := i + 1; k < j; k++ {
+				u := toks[k]
+				if u.k == tPunct && (u.s == "(" || u.s == "[" || u.s == "{") {
+					dd++
+				} else if u.k == tPunct && (u.s == ")" || u.s == "]" || u.s == "}") {
+					dd--
+				} else if isPunct(u, "=") {
+					inDef = true
+				} else if dd == 0 && isPunct(u, ",") {
+					inDef = false
+				} else if inDef && u.k == tIdent && !jsKeywords[u.s] {
+					used[u.s] = true
+				}
+			}
+			if len(used) > 0 {
+				be := matchClose(toks, j+1)
+				inVar := false
+				for k := j + 2; k < be && k < n; k++ {
+					u := toks[k]
+					if isWord(u, "var") {
+						inVar = true
+					} else if isPunct(u, ";") || u.nl && !isPunct(at(k-1), ",") && !isWord(at(k-1), "var") {
+						inVar = false
+					} else if inVar && u.k == tIdent && used[u.s] {
+						found["N12"] = true
+					}
 				}
 			}
 		}
